@@ -101,6 +101,24 @@ pub fn regexset_matches_iter(s: &RegexSet, hay: &str) -> (r: SetMatchIter)
     SetMatchIter(s.matches(hay).into_iter())
 }
 
+// -- RegexSet::matches(hay) as a value (regex-1.x documentation): `len()` is the number of regexes in the SET (not the number
+// that matched), `matched_any()` says whether at least one matched, `matched(i)` whether member i did.  The loops of the real
+// code go through regexset_matches_iter above; these are here so that a change which starts using the SetMatches value
+// directly is judged by the contracts instead of stopping at "no specification".
+#[verifier::external_type_specification]
+#[verifier::external_body]
+pub struct ExSetMatches(regex::SetMatches);
+pub uninterp spec fn sm_hits(m: &regex::SetMatches) -> Seq<usize>;
+pub uninterp spec fn sm_len(m: &regex::SetMatches) -> nat;
+pub assume_specification[ RegexSet::matches ](s: &RegexSet, hay: &str) -> (r: regex::SetMatches)
+    ensures sm_hits(&r) == regexset_hits(s, hay@), sm_len(&r) == regexset_patterns(s).len();
+pub assume_specification[ regex::SetMatches::len ](m: &regex::SetMatches) -> (r: usize)
+    ensures r == sm_len(m);
+pub assume_specification[ regex::SetMatches::matched_any ](m: &regex::SetMatches) -> (r: bool)
+    ensures r == (sm_hits(m).len() > 0);
+pub assume_specification[ regex::SetMatches::matched ](m: &regex::SetMatches, i: usize) -> (r: bool)
+    ensures r == sm_hits(m).contains(i);
+
 pub assume_specification[ Regex::is_match ](r: &Regex, hay: &str) -> (o: bool)
     ensures o == regex_is_match(r, hay@);
 pub uninterp spec fn regexset_is_match(s: &RegexSet, hay: Seq<char>) -> bool;
